@@ -481,11 +481,74 @@ def _J(s):
       ctl_ok(ga, gc, z3.Select(trt.val, k)))
 
 
+def SVset(s, t, c):
+  """Score tuple of the design (treatment group t, control group c)."""
+  x, y = agg_y(s, c), agg_y(s, t)
+  return [cl.SCORE(x, y, s.self.parameters, k) for k in range(6)]
+
+
+def _sv_eq(a, b):
+  return z3.And([(z3.ToReal(x) if x.sort() != y.sort() and x.sort() == I
+                  else x) ==
+                 (z3.ToReal(y) if x.sort() != y.sort() and y.sort() == I
+                  else y) for x, y in zip(a, b)])
+
+
 def _inner_match_inv(s):
   ga = GA(s)
   trt = unwrap(s.group_star_trt)
   return z3.And(ctl_ok(ga, S(s.group_ctl_tmp), z3.Select(trt.val, N(s.k))),
                 B(cl.comparable(s.current_score)))
+
+
+def _inner_match_score(s):
+  """The best score so far is the score of the best control group so far."""
+  trt = unwrap(s.group_star_trt)
+  return _sv_eq(cl.SV(s.current_score),
+                SVset(s, z3.Select(trt.val, N(s.k)), S(s.group_ctl_tmp)))
+
+
+# Termination of the greedy walk (C09).  RANK(x, y) = number of control groups
+# C' within the control-eligible geos whose design (T, C') scores strictly
+# below the design with control series x, for the treatment series y.  It is a
+# count over a finite family, so it lies in [0, RANK_MAX], and a strictly
+# better admissible control group has a strictly larger rank because the
+# lexicographic order on real tuples is irreflexive and transitive.  The
+# instance used at the back edge is passed to the obligation as a hypothesis
+# and listed as an assumption (a mathematical lemma about finite sets, not
+# about the code).
+RANK = z3.Function('GREEDY_RANK', cl.Arr, cl.Arr, I)
+RANK_MAX = z3.Int('GREEDY_RANK_MAX')
+
+
+class _VT(tuple):
+  snap = None
+
+
+def _greedy_variant(s):
+  trt = unwrap(s.group_star_trt)
+  k, mx = N(s.k), N(s.max_treatment_size)
+  t = z3.Select(trt.val, k)
+  gc = S(s.group_ctl)
+  v = _VT([z3.If(k < mx, mx - k, z3.IntVal(0)),
+           z3.If(B(s.needs_matching), z3.IntVal(1), z3.IntVal(0)),
+           RANK_MAX - RANK(agg_y(s, gc), agg_y(s, t))])
+  v.snap = (t, gc, SVset(s, t, gc), z3.IsSubset(gc, S(GA(s).c)))
+  return v
+
+
+def _greedy_rank_lemma(s, v0, v1):
+  t0, c0, sv0, in0 = v0.snap
+  t1, c1, sv1, in1 = v1.snap
+  r0 = RANK(agg_y(s, c0), agg_y(s, t0))
+  r1 = RANK(agg_y(s, c1), agg_y(s, t1))
+  return [
+      ('finite-set ranking: ranks lie in [0, RANK_MAX]',
+       z3.And(r0 >= 0, r0 <= RANK_MAX, r1 >= 0, r1 <= RANK_MAX)),
+      ('finite-set ranking: a strictly better admissible control group for '
+       'the same treatment group has a strictly larger rank',
+       z3.Implies(z3.And(in0, in1, t0 == t1, cl.lex_lt(sv0, sv1)), r0 < r1)),
+  ]
 
 
 def _inner_add_inv(s):
@@ -556,10 +619,14 @@ spec.contract(
                       _J, ('C01', 'C09')),
                      ('the geo index of geo_assignments is installed',
                       installed)],
+                 variant=_greedy_variant, variant_lemmas=_greedy_rank_lemma,
                  extra_modifies=GA_FIELDS_MOD),
         LoopSpec(('geo', 'reassignable_geos'),
                  invariants=[('candidate control group is admissible',
                               _inner_match_inv, ('C01', 'C09')),
+                             ('C09 termination: the best score so far is the '
+                              'score of the best control group so far',
+                              _inner_match_score, ('C09',)),
                              ('index installed', installed)],
                  extra_modifies=GA_FIELDS_MOD),
         LoopSpec(('geo', 'r_treatment'),
